@@ -1,6 +1,7 @@
 package checks
 
 import (
+	"github.com/sdcio/cache/proto/cachepb"
 	"context"
 	"encoding/json"
 	"fmt"
@@ -646,6 +647,9 @@ func (c *c20) RunCase(w *core.Worker, idx int, seed uint64, res *core.CaseResult
 		for i := 0; i < n; i++ {
 			nf := &sdcpb.Notification{}
 			k := 1 + rng.Intn(3)
+			if rng.Chance(1, 8) {
+				k = 0 // a notification without updates and deletes (heartbeat, empty reply) is a valid message too
+			}
 			d := []string{}
 			for j := 0; j < k; j++ {
 				p := mutatePath(rng, c20SchemaPaths[rng.Intn(len(c20SchemaPaths))])
@@ -699,6 +703,30 @@ func (c *c20) RunCase(w *core.Worker, idx int, seed uint64, res *core.CaseResult
 		r.outcomes["sent"] = true
 		r.outcomes["drained"] = true
 		r.outcomes[fmt.Sprint("left:", len(ch))] = true
+		// the loop must still be alive: a last, valid notification has to reach the running store
+		if len(res.Findings) == 0 {
+			bv := uint64(1000 + rng.Intn(1000000))
+			bn := roundTrip(&sdcpb.Notification{Update: []*sdcpb.Update{{Path: model.Parse("/verif-barrier").ToPb(), Value: &sdcpb.TypedValue{Value: &sdcpb.TypedValue_UintVal{UintVal: bv}}}}})
+			fmt.Fprintf(os.Stderr, "VERIF-INPUT %s barrier notification %d\n", family, bv)
+			arrived := false
+			select {
+			case ch <- &target.SyncUpdate{Update: bn}:
+				deadline := time.Now().Add(10 * time.Second)
+				for time.Now().Before(deadline) && !arrived {
+					st, _ := fixture.DumpStore(ctx, c.env.Cache, ds.Name, cachepb.Store_CONFIG)
+					if st["verif-barrier"] == fmt.Sprint(bv) {
+						arrived = true
+					} else {
+						time.Sleep(5 * time.Millisecond)
+					}
+				}
+			case <-time.After(10 * time.Second):
+			}
+			res.Count("sync_barriers", 1)
+			if !arrived {
+				res.Violate("C20/hang/sync-loop-stalled", "after this batch of notifications a valid notification does not reach the running store within 10 s (%d notifications still queued): the sync loop has stopped\n  batch: %s", len(ch), strings.Join(inputs, "\n         "))
+			}
+		}
 	case "netconf-xml":
 		drv := fixture.NewFakeDrv()
 		sbi := &config.SBI{Type: "netconf", Address: "127.0.0.1", Port: 1, ConnectRetry: time.Hour, Timeout: time.Second, Credentials: &config.Creds{Username: "u", Password: "p"},
